@@ -166,7 +166,7 @@ class C12(OptEngineBase):
 
     def generate(self, rng, tier, index):
         config = draw_config(rng)
-        workload, meta = graphs.gen_opt_workload(rng, {"self_loops": False, "alias_poses": 0.1, "nonunit_quats": 0.1, "init_noise": ["tiny", "moderate", "moderate", "moderate", "far"]})
+        workload, meta = graphs.gen_opt_workload(rng, {"self_loops": False, "alias_poses": 0.1, "nonunit_quats": 0.1, "huge_scale": 0.02, "init_noise": ["tiny", "moderate", "moderate", "moderate", "far"]})
         verts = workload["vertices"]
         ids = [v["id"] for v in verts]
         comps = graphs.components(workload)
